@@ -15,6 +15,14 @@
 (*                         becomes visible AFTER its initialiser, a local  *)
 (*                         function BEFORE it (so it can call itself)      *)
 (*   use(b)                an identifier that is meant to refer to b       *)
+(*   entermethod/exitmethod  a field of a blob literal whose value is a    *)
+(*                         function literal (parenthesised or not): the    *)
+(*                         literal's implicit binder `self` is declared    *)
+(*                         for this field ONLY - not for the data fields   *)
+(*                         written before or after it, not for a nested    *)
+(*                         blob literal's fields                           *)
+(* Jumps (ret / break / continue) are no scope events: the text after an   *)
+(* unconditional jump is resolved like any other text of its block.        *)
 (* The machine keeps a stack of (name, binder) entries and a stack of      *)
 (* frames; every exit pops its frame's entries.  use(name) resolves to the *)
 (* innermost stack entry of that name, else to the module global of that   *)
@@ -50,16 +58,17 @@ Enter(k, fk) == Ev(k, fk, 0, "-", 0)
 Exit(k, fk) == Ev(k, fk, 0, "-", 0)
 DeclareEv(b, bk) == Ev("declare", "-", b, bk, 0)
 UseEv(b) == Ev("use", "-", b, "-", 0)
+FldUseEv(b) == Ev("use", "fldbase", b, "-", 0)       \* the use is the base of a field access `b.f` (same scope rule)
 PlantedUseEv(b) == Ev("use", "-", b, "-", 1)       \* s = 1 marks the planted use of an out-of-scope variant
 SlotEv(s) == Ev("slot", "-", 0, "-", s)
 QUseEv(b) == Ev("quse", "-", b, "-", 0)            \* `m.x`: x among the globals of b's module
 ModuleEv(m) == Ev("module", "-", m, "-", 0)        \* what follows is top-level text of module m
 TopEv(b) == Ev("top", "-", b, "-", 0)              \* what follows is the initialiser of global b
 
-EnterKinds == {"enterfn", "enterblock", "enterbranch", "enterarm", "enterloop"}
-ExitKinds == {"exitfn", "exitblock", "exitbranch", "exitarm", "exitloop"}
+EnterKinds == {"enterfn", "enterblock", "enterbranch", "enterarm", "enterloop", "entermethod"}
+ExitKinds == {"exitfn", "exitblock", "exitbranch", "exitarm", "exitloop", "exitmethod"}
 EventKinds == EnterKinds \cup ExitKinds \cup {"declare", "use", "quse", "slot", "module", "top"}
-FrameKinds == {"fn", "block", "if-branch", "elif-branch", "else-branch", "case-arm", "case-else", "loop"}
+FrameKinds == {"fn", "block", "if-branch", "elif-branch", "else-branch", "case-arm", "case-else", "loop", "method"}
 
 (* ------------------------------------------------ binders with a fixed name *)
 SStart == 1000
@@ -69,9 +78,17 @@ StdOther == 2003
 IsPrefix(p, t) == Len(t) >= Len(p) /\ SubSeq(t, 1, Len(p)) = p
 StdId(name) == IF name = "print" THEN StdPrint ELSE IF IsPrefix("list.", name) THEN StdList ELSE StdOther
 TypeId(name) == CASE name = "E" -> 3001 [] name = "B" -> 3002 [] name = "M" -> 3003 [] name = "P" -> 3004
-                  [] name = "Q" -> 3005 [] OTHER -> 3009
+                  [] name = "Q" -> 3005 [] name = "QA" -> 3006 [] name = "QB" -> 3007 [] name = "QC" -> 3008
+                  [] name = "QD" -> 3010 [] OTHER -> 3009
 NsId(name) == 4002
 StdMap == (StdPrint :> 0) @@ (StdList :> 0) @@ (StdOther :> 0)
+\* the implicit binder `self` of a blob literal: ids 41..49 (node field `sb`); all of them carry the one reserved name
+\* `self`, which no other binder can take.  A `self` node that names its intended binder (field `b`) is a use.
+SelfIds == 41..49
+IsSelfId(b) == b \in SelfIds
+NSelf == 0 - 40
+Unparen(e) == IF e.k = "paren" THEN e.e ELSE e          \* (skeletons nest parentheses at most once)
+IsFnLit(e) == Unparen(e).k = "fn"
 
 (* ------------------------------------------------- the walk: AST -> events *)
 RECURSIVE LinTy(_)
@@ -98,6 +115,15 @@ LinSeqE(es, i) == IF i > Len(es) THEN <<>> ELSE LinE(es[i]) \o LinSeqE(es, i + 1
 LinSeqS(ss, i) == IF i > Len(ss) THEN <<>> ELSE LinS(ss[i]) \o LinSeqS(ss, i + 1)
 LinParams(ps, i) == IF i > Len(ps) THEN <<>> ELSE <<DeclareEv(ps[i].b, "param")>> \o LinTy(ps[i].ty) \o LinParams(ps, i + 1)
 LinFields(fs, i) == IF i > Len(fs) THEN <<>> ELSE LinE(fs[i].e) \o LinFields(fs, i + 1)
+\* the fields of a blob literal with an implicit `self` (binder sb), in the order they are written: `self` is declared
+\* around every field that is a function literal, and around nothing else
+RECURSIVE LinSelfFields(_, _, _)
+LinSelfFields(fs, i, sb) ==
+    IF i > Len(fs) THEN <<>>
+    ELSE (IF IsFnLit(fs[i].e)
+          THEN <<Ev("entermethod", "method", sb, "self", 0)>> \o LinE(fs[i].e) \o <<Exit("exitmethod", "method")>>
+          ELSE LinE(fs[i].e))
+         \o LinSelfFields(fs, i + 1, sb)
 
 \* if / elif / else: the condition belongs to the enclosing scope, the body is a scope of its own
 LinArms(arms, i) ==
@@ -115,7 +141,11 @@ LinCArms(arms, i) ==
          \o LinSeqS(arms[i].body, 1) \o <<Exit("exitarm", "case-arm")>> \o LinCArms(arms, i + 1)
 
 LinE(e) ==
-    CASE e.k \in {"int", "float", "str", "bool", "nil", "self"} -> <<>>
+    CASE e.k \in {"int", "float", "str", "bool", "nil"} -> <<>>
+      [] e.k = "self" -> IF "b" \in DOMAIN e
+                         THEN (IF "planted" \in DOMAIN e THEN <<PlantedUseEv(e.b)>> ELSE <<UseEv(e.b)>>)
+                         ELSE <<>>                     \* (programs of other universes: `self` without a binder id)
+      [] e.k = "paren" -> LinE(e.e)
       [] e.k = "std" -> <<UseEv(StdId(e.name))>>
       [] e.k = "qvar" -> <<UseEv(NsId(e.ns)), QUseEv(e.b)>>
       [] e.k = "var" -> IF "planted" \in DOMAIN e THEN <<PlantedUseEv(e.b)>> ELSE <<UseEv(e.b)>>
@@ -127,17 +157,23 @@ LinE(e) ==
                          \o (IF e.hasels
                              THEN <<Ev("enterarm", "case-else", 0, "-", 0)>> \o LinSeqS(e.els, 1) \o <<Exit("exitarm", "case-else")>>
                              ELSE <<>>)
-      [] e.k = "fn" -> <<Ev("enterfn", "fn", 0, IF e.ret.k = "tvoid" THEN "void" ELSE "value", 0)>>
+      [] e.k = "fn" -> <<Ev("enterfn", "fn", 0, IF e.ret.k = "tvoid" THEN "void" ELSE IF e.ret.k = "tint" THEN "value" ELSE "other", 0)>>
                        \o LinParams(e.params, 1) \o LinTy(e.ret) \o LinSeqS(e.body, 1) \o <<Exit("exitfn", "fn")>>
       [] e.k = "call" -> LinE(e.f) \o LinSeqE(e.args, 1)
       [] e.k \in {"tuple", "list"} -> LinSeqE(e.es, 1)
-      [] e.k = "blob" -> <<UseEv(TypeId(e.name))>> \o LinFields(e.fields, 1)
-      [] e.k \in {"fld", "idx"} -> LinE(e.e)
+      [] e.k = "blob" -> <<UseEv(TypeId(e.name))>>
+                         \o (IF "sb" \in DOMAIN e THEN LinSelfFields(e.fields, 1, e.sb) ELSE LinFields(e.fields, 1))
+      [] e.k = "fld" -> IF e.e.k = "var" /\ "planted" \notin DOMAIN e.e THEN <<FldUseEv(e.e.b)>> ELSE LinE(e.e)
+      [] e.k = "idx" -> LinE(e.e)
       [] e.k = "variant" -> <<UseEv(TypeId(e.enum))>> \o (IF e.has THEN LinE(e.e) ELSE <<>>)
 
+\* the ways a local function can be declared: `f :: fn`, `f := fn`, `f: T : fn`, `f: T = fn`, `f := (fn)`;
+\* the binder kind records it (for signatures), the scope rule is the same for all
+DeclKind(st) == (IF st.e.k = "paren" THEN "paren-" ELSE "") \o (IF st.ty.k = "tnone" THEN "" ELSE "t") \o st.kind
+FnLocalKind(st) == IF DeclKind(st) = "const" THEN "fnlocal" ELSE "fnlocal-" \o DeclKind(st)
 LinS(st) ==
-    CASE st.k = "def" -> IF st.e.k = "fn"
-                         THEN <<DeclareEv(st.b, "fnlocal")>> \o LinE(st.e)      \* visible in its own body
+    CASE st.k = "def" -> IF IsFnLit(st.e)                                   \* whatever the declaration kind
+                         THEN <<DeclareEv(st.b, FnLocalKind(st))>> \o LinE(st.e) \o LinTy(st.ty)   \* visible in its own body
                          ELSE LinE(st.e) \o <<DeclareEv(st.b, "local")>> \o LinTy(st.ty)   \* visible after the initialiser
                          \* (the written type is walked last: a variable that takes its own type's name is not legal)
       [] st.k = "asg" -> LinE(st.e) \o (IF st.t.k = "var" THEN LinE(st.t) ELSE LinE(st.t.e))
@@ -180,7 +216,7 @@ VisibleIn(G, g, m) == G[g] = m \/ G[g] = 0
 
 (* ------------------------------------------------------- the scope machine *)
 \* nm: function binder id -> name; binders outside its domain keep a fixed private name
-NameOf(nm, b) == IF b \in DOMAIN nm THEN nm[b] ELSE 0 - b
+NameOf(nm, b) == IF b \in DOMAIN nm THEN nm[b] ELSE IF IsSelfId(b) THEN NSelf ELSE 0 - b
 
 EmptySt == [stack |-> <<>>, frames |-> <<>>, res |-> <<>>, dup |-> FALSE, mod |-> 1]
 InitSt(G, nm) == [EmptySt EXCEPT !.dup = \E g \in DOMAIN G : \E h \in DOMAIN G :
@@ -217,6 +253,7 @@ Step(st, ev, G, nm, idx) ==
       [] ev.k = "enterblock" -> Push(st, "block", idx)
       [] ev.k = "enterbranch" -> Push(st, ev.fk, idx)
       [] ev.k = "enterarm" -> EnterArmB(st, ev, nm, idx)
+      [] ev.k = "entermethod" -> EnterArmB(st, ev, nm, idx)          \* a frame that declares the literal's `self`
       [] ev.k = "enterloop" -> Push(st, "loop", idx)
       [] ev.k \in ExitKinds -> Pop(st)
       [] ev.k = "declare" -> DeclareB(st, ev.b, nm)
@@ -263,9 +300,11 @@ SPush(sc, fk, rt, id) == [sc EXCEPT !.frames = Append(@, [fk |-> fk, base |-> Le
 SPop(sc, idx) == [sc EXCEPT !.stack = SubSeq(@, 1, STop(sc).base), !.frames = SubSeq(@, 1, Len(@) - 1),
                             !.exitAt = @ @@ (STop(sc).id :> idx)]
 SDeclare(sc, b, bk, idx) ==
+    \* (a literal's `self` is declared once per method field: its home is the first of these frames; it is no
+    \*  renamable binder, so it is left out of the declaration order)
     [sc EXCEPT !.conf = @ \cup {<<sc.stack[i], b>> : i \in (SBase(sc) + 1)..Len(sc.stack)},
                !.stack = Append(@, b), !.home = @ @@ (b :> FrameIds(sc)), !.declAt = @ @@ (b :> idx),
-               !.bk = @ @@ (b :> bk), !.order = Append(@, b)]
+               !.bk = @ @@ (b :> bk), !.order = IF IsSelfId(b) THEN @ ELSE Append(@, b)]
 SUse(sc, c, G) ==
     LET hits == {i \in 1..Len(sc.stack) : sc.stack[i] = c} IN
     IF hits = {} /\ ~(c \in DOMAIN G /\ VisibleIn(G, c, sc.mod)) THEN sc    \* a use outside its binder's scope constrains nothing
@@ -274,12 +313,20 @@ SUse(sc, c, G) ==
 \* the return kind of the innermost function around the current point ("none" at module level)
 FnRt(sc) == LET F == {i \in 1..Len(sc.frames) : sc.frames[i].fk = "fn"} IN
             IF F = {} THEN "none" ELSE sc.rtOf[sc.frames[MaxOfSet(F)].id]
+\* is the current point inside a loop body of the innermost function (break / continue can be written there)
+InLoop(sc) == LET F == {i \in 1..Len(sc.frames) : sc.frames[i].fk = "fn"}
+                  f0 == IF F = {} THEN 0 ELSE MaxOfSet(F)
+              IN \E i \in (f0 + 1)..Len(sc.frames) : sc.frames[i].fk = "loop"
+\* the innermost `self` visible at the current point (0: none)
+SelfIn(sc) == LET S == {i \in 1..Len(sc.stack) : IsSelfId(sc.stack[i])} IN IF S = {} THEN 0 ELSE sc.stack[MaxOfSet(S)]
 SSlot(sc, s, idx) == [sc EXCEPT !.slots = @ @@ (s :> [path |-> FrameIds(sc), idx |-> idx, vis |-> OnStack(sc),
-                                                       mod |-> sc.mod, top |-> sc.top, fnrt |-> FnRt(sc)])]
+                                                       mod |-> sc.mod, top |-> sc.top, fnrt |-> FnRt(sc),
+                                                       inloop |-> InLoop(sc), selfin |-> SelfIn(sc)])]
 
 ScanStep(sc, ev, G, idx) ==
     CASE ev.k \in {"enterfn", "enterblock", "enterbranch", "enterloop"} -> SPush(sc, ev.fk, ev.bk, idx)
-      [] ev.k = "enterarm" -> IF ev.b = 0 THEN SPush(sc, ev.fk, "-", idx) ELSE SDeclare(SPush(sc, ev.fk, "-", idx), ev.b, ev.bk, idx)
+      [] ev.k \in {"enterarm", "entermethod"} ->
+            IF ev.b = 0 THEN SPush(sc, ev.fk, "-", idx) ELSE SDeclare(SPush(sc, ev.fk, "-", idx), ev.b, ev.bk, idx)
       [] ev.k \in ExitKinds -> SPop(sc, idx)
       [] ev.k = "declare" -> SDeclare(sc, ev.b, ev.bk, idx)
       [] ev.k = "use" -> SUse(sc, ev.b, G)
@@ -296,7 +343,12 @@ ScanTops(tops) == LET G == Globals(tops) IN Scan(LinTops(tops), G, [g \in DOMAIN
 ProperColouring(conf, nm) == \A p \in conf : NameOf(nm, p[1]) # NameOf(nm, p[2])
 
 \* where a binder is visible
-InScope(sc, G, b, s) == (b \in DOMAIN G /\ VisibleIn(G, b, sc.slots[s].mod)) \/ b \in sc.slots[s].vis
+\* (all `self` binders share one name: a literal's `self` is what the word means only where it is the innermost one)
+InScope(sc, G, b, s) == IF IsSelfId(b) THEN sc.slots[s].selfin = b
+                        ELSE (b \in DOMAIN G /\ VisibleIn(G, b, sc.slots[s].mod)) \/ b \in sc.slots[s].vis
+\* what the word written for binder b at slot s refers to when b is not in scope there: nothing (0), or - for `self` -
+\* the instance of another blob literal
+OtherReferent(sc, b, s) == IF IsSelfId(b) THEN sc.slots[s].selfin ELSE 0
 CommonLen(h, p) == MaxOfSet({i \in 0..MinOf2(Len(h), Len(p)) : \A j \in 1..i : h[j] = p[j]})
 \* position class of a slot where b is NOT visible: inside b's own frame it can only be before the declaration;
 \* otherwise the outermost frame of b's home that does not enclose the slot separates them
@@ -305,6 +357,7 @@ PosClass(sc, b, s) ==
         sl == sc.slots[s]
         c == CommonLen(h, sl.path)
     IN IF sc.bk[b] \in {"global", "globalfn"} THEN "other-module"
+       ELSE IF OtherReferent(sc, b, s) # 0 THEN "other-instance"
        ELSE IF c = Len(h) THEN "before-decl"
        ELSE (IF sl.idx < h[c + 1] THEN "before-" ELSE "after-") \o sc.fkOf[h[c + 1]]
 OwnFrame(sc, b) == IF Len(sc.home[b]) = 0 THEN "module" ELSE sc.fkOf[sc.home[b][Len(sc.home[b])]]
@@ -346,7 +399,7 @@ ColourFrom(order, i, conf, col) ==
          IN ColourFrom(order, i + 1, conf, col @@ (b :> c))
 Greedy(order, conf) == ColourFrom(order, 1, conf, <<>>)
 
-PoolName == <<"ka", "kb", "kc", "kd", "ke", "kf">>
+PoolName == <<"ka", "kb", "kc", "kd", "ke", "kf", "kg">>
 Letters == <<"a", "b", "c", "d", "e", "f", "g", "h", "i", "j", "k", "l", "m",
              "n", "o", "p", "q", "r", "s", "t", "u", "v", "w", "x", "y", "z">>
 ColourName(c) == "k" \o Letters[((c - 1) \div 26) + 1] \o Letters[((c - 1) % 26) + 1]
@@ -381,16 +434,40 @@ GDef(b, kind, ty, e) == DefN(b, kind, ty, e, "")
 UseTop(name) == [k |-> "use", name |-> name]
 ModuleTop(m, name) == [k |-> "module", m |-> m, name |-> name]
 QV(ns, b) == [k |-> "qvar", ns |-> ns, b |-> b]
+\* a blob literal whose implicit `self` is binder sb
+BlobS(name, sb, fields) == [k |-> "blob", name |-> name, sb |-> sb, fields |-> fields]
+FnIntInt == TFn(<<TInt>>, TInt)
+TypedDef(b, kind, ty, e) == [k |-> "def", b |-> b, kind |-> kind, ty |-> ty, e |-> e, n |-> "", tyfn |-> TRUE]
+\* a local function under each way of declaring it (dk: DeclKind of the resulting node)
+LocalFnDef(dk, b, fn) ==
+    CASE dk = "const" -> DefC(b, TNone, fn)
+      [] dk = "mut" -> DefM(b, TNone, fn)
+      [] dk = "tconst" -> TypedDef(b, "const", FnIntInt, fn)
+      [] dk = "tmut" -> TypedDef(b, "mut", FnIntInt, fn)
+      [] dk = "paren-mut" -> DefM(b, TNone, Paren(fn))
 
 SlotIds == 1..40
 IsStmtSlot(s) == s <= 20
 EmptyFill == [s \in SlotIds |-> IF IsStmtSlot(s) THEN <<>> ELSE I(0)]
 MarkFill == [s \in SlotIds |-> IF IsStmtSlot(s) THEN <<[k |-> "slot", id |-> s]>> ELSE [k |-> "eslot", id |-> s]]
-PlantedV(b) == [k |-> "var", b |-> b, planted |-> TRUE]
+\* the text written for binder b: its name, or - for the `self` of a blob literal - `self.<f>` with the int field f
+\* that only this literal's blob type has (so that the types tell the instances apart)
+SelfB(b) == [k |-> "self", b |-> b]
+SelfFld(b) == <<"sa", "sb", "sc", "sd">>[b - 40]
+PlantedV(b) == IF IsSelfId(b) THEN Fld([k |-> "self", b |-> b, planted |-> TRUE], SelfFld(b))
+               ELSE [k |-> "var", b |-> b, planted |-> TRUE]
 
 \* the syntactic positions a use can be written at (statement slots); "expr" is the expression slot itself
 StmtForms == {"arg", "ret-call", "ret-val", "cond", "loop-cond", "callee", "operand", "neg", "assert-eq", "tuple-elem",
               "list-elem", "blob-field", "index-base", "field-base", "asg-target", "asg-value", "scrutinee"}
+\* DEAD CODE: the use stands behind an unconditional jump of its block.  Direct forms put the jump at the slot itself
+\* (`ret` in a void function, `ret 0` in an int function, break / continue inside a loop); the wrapped forms bring
+\* their own function / loop, so that every kind of block is met behind every kind of jump at every slot
+DeadDirect == {"dead-ret", "dead-retv", "dead-break", "dead-continue"}
+DeadWrapped == {"dead-fn-ret", "dead-block-break", "dead-if-break", "dead-else-continue", "dead-loop-continue"}
+DeadWrappedE == {"dead-caseelse-break", "dead-arm-continue"}          \* (need the enum E)
+DeadForms == DeadDirect \cup DeadWrapped \cup DeadWrappedE
+Never == Bin("<", I(1), I(0))
 TmpA == 90
 TmpB == 91
 FormStmts(form, b) ==
@@ -412,22 +489,43 @@ FormStmts(form, b) ==
       [] form = "asg-target" -> <<Asg("=", v, I(1))>>
       [] form = "asg-value" -> <<DefM(TmpA, TInt, I(0)), Asg("=", V(TmpA), v)>>
       [] form = "scrutinee" -> <<Ex(CaseE(v, <<CArmB("X", TmpB, <<Print(V(TmpB))>>)>>, <<Print(I(0))>>))>>
+      [] form = "dead-ret" -> <<Ret0, Print(v)>>
+      [] form = "dead-retv" -> <<Ret(I(0)), Print(v)>>
+      [] form = "dead-break" -> <<Break, Print(v)>>
+      [] form = "dead-continue" -> <<Cont, Print(v)>>
+      [] form = "dead-fn-ret" -> <<DefC(TmpA, TNone, Fn(<<>>, TVoid, <<Ret0, Print(v)>>))>>
+      [] form = "dead-block-break" -> <<Loop(Bo(TRUE), <<Block(<<Break, Print(v)>>), Break>>)>>
+      [] form = "dead-if-break" -> <<Loop(Bo(TRUE), <<Ex(If1(Never, <<Break, Print(v)>>)), Break>>)>>
+      [] form = "dead-else-continue" -> <<Loop(Never, <<Ex(If2(Never, <<Print(I(0))>>, <<Cont, Print(v)>>))>>)>>
+      [] form = "dead-loop-continue" -> <<Loop(Never, <<Cont, Print(v)>>)>>
+      [] form = "dead-caseelse-break" -> <<Loop(Bo(TRUE), <<Ex(CaseE(Var0("E", "Y"), <<CArm("X", <<Print(I(0))>>)>>, <<Break, Print(v)>>)), Break>>)>>
+      [] form = "dead-arm-continue" -> <<Loop(Never, <<Ex(CaseE(Var0("E", "Y"), <<CArm("Y", <<Cont, Print(v)>>)>>, <<Print(I(0))>>))>>)>>
 PlantFill(s0, b, form) ==
     [s \in SlotIds |-> IF IsStmtSlot(s)
                        THEN (IF s = s0 THEN FormStmts(form, b) ELSE <<>>)
                        ELSE (IF s = s0 THEN PlantedV(b) ELSE I(0))]
 
-NSkel == 17
+NSkel == 23
 SkName(i) == <<"blocks", "ifelse", "ifvalue", "case", "caseelse", "loop", "params", "localfn", "global",
-               "fninbranch", "shadowparam", "mixed", "ginit-if", "ginit-case", "ginit-lambda", "ginit-blob", "twofile">>[i]
-NB(i) == <<3, 4, 4, 5, 4, 3, 5, 5, 4, 3, 5, 6, 6, 6, 6, 3, 4>>[i]
+               "fninbranch", "shadowparam", "mixed", "ginit-if", "ginit-case", "ginit-lambda", "ginit-blob", "twofile",
+               "localrec-mut", "localrec-const", "localrec-tconst", "localrec-tmut", "localrec-paren-mut", "blobself">>[i]
+NB(i) == <<3, 4, 4, 5, 4, 3, 5, 5, 4, 3, 5, 6, 6, 6, 6, 3, 4, 7, 7, 7, 7, 7, 4>>[i]
+\* skeletons 18..22 are ONE program under the five ways of declaring its recursive local function
+DeclKindOf(i) == <<"mut", "const", "tconst", "tmut", "paren-mut">>[i - 17]
+\* (the first gets the whole naming universe, its four twins all-distinct, max-shadow, the single-pair merges and the
+\*  role names)
+PoolSkel(i) == i \notin 19..22
+\* the `self` binders of a skeleton's blob literals
+SelfBinders(i) == IF i = 23 THEN 41..44 ELSE {}
+HasE(i) == i \in {4, 5, 12, 14}
 \* binders holding an int / a mutable int / a function without parameters / an enum value: the planted forms that
 \* need such a type are expected to be ACCEPTED only for them (out-of-scope uses are planted in every form)
 IntBinders(i) == <<{1, 2, 3}, {1, 2, 3, 4}, {1, 2, 3, 4}, {2, 3, 4, 5}, {2, 3, 4}, {1, 2, 3}, {2, 3, 5}, {1, 3, 4, 5},
                    {1, 3, 4}, {1, 3}, {2, 3, 5}, {2, 4, 5, 6}, {1, 2, 3, 4, 5, 6}, {2, 3, 4, 5, 6}, {1, 3, 5, 6}, {1, 3},
-                   {1, 2, 4}>>[i]
+                   {1, 2, 4}, {2, 7}, {2, 7}, {2, 7}, {2, 7}, {2, 7}, {2, 4, 41, 42, 43, 44}>>[i]
 MutIntBinders(i) == <<{1, 2, 3}, {1, 2, 3, 4}, {1, 2, 3, 4}, {2, 4, 5}, {3, 4}, {1, 2, 3}, {3}, {1, 4, 5},
-                      {1, 4}, {1, 3}, {}, {5, 6}, {1, 3, 4, 5}, {2, 5, 6}, {1, 3, 6}, {1, 3}, {1, 2}>>[i]
+                      {1, 4}, {1, 3}, {}, {5, 6}, {1, 3, 4, 5}, {2, 5, 6}, {1, 3, 6}, {1, 3}, {1, 2},
+                      {}, {}, {}, {}, {}, {2, 4, 41, 42, 43, 44}>>[i]
 Fn0Binders(i) == IF i = 10 THEN {2} ELSE {}
 EnumBinders(i) == CASE i = 4 -> {1} [] i = 5 -> {1} [] i = 12 -> {3} [] i = 14 -> {1} [] OTHER -> {}
 
@@ -469,7 +567,7 @@ SkelTops(i, f) ==
     <<StartD(f[9] \o <<DefM(1, TInt, I(0))>> \o f[1]
         \o <<Loop(Bin("<", V(1), Bin("+", I(2), f[21])),
                   f[2] \o <<DefM(2, TInt, Bin("+", V(1), I(1))), Asg("=", V(1), V(2)),
-                            Ex(If1(Bin(">", V(2), I(5)), <<DefM(3, TInt, V(2)), Print(V(3))>> \o f[5] \o <<Break>>))>> \o f[3])>>
+                            Ex(If1(Bin(">", V(2), I(5)), f[6] \o <<DefM(3, TInt, V(2)), Print(V(3))>> \o f[5] \o <<Break>>))>> \o f[3])>>
         \o f[4] \o <<Print(V(1))>>)>>
     [] i = 7 ->   \* parameters and locals of sibling global functions
     <<GDef(1, "const", TNone, Fn(<<P(2, TInt)>>, TInt, f[1] \o <<DefM(3, TInt, Bin("+", V(2), I(1)))>> \o f[2] \o <<Ex(V(3))>>)),
@@ -547,6 +645,49 @@ SkelTops(i, f) ==
       GDef(2, "mut", TInt, I(5)),
       GDef(3, "const", TNone, Fn(<<P(4, TInt)>>, TVoid, f[2] \o <<Print(Bin("+", V(4), V(2)))>>))>>
 
+    [] i \in 18..22 ->  \* a recursive local function under each declaration kind; a global function, a parameter and an
+                      \* enclosing local of ITS type are in scope around it (each may lend it its name)
+    <<GDef(1, "const", TNone, Fn(<<P(2, TInt)>>, TInt, f[7] \o <<Ex(Bin("+", V(2), I(100)))>>)),
+      GDef(3, "const", TNone, Fn(<<P(4, FnIntInt)>>, TInt,
+             f[1] \o <<DefC(5, TNone, V(4))>>
+             \o <<Block(f[2] \o <<LocalFnDef(DeclKindOf(i), 6,
+                                       Fn(<<P(7, TInt)>>, TInt,
+                                          f[3] \o <<Ex(If1(Bin("<=", V(7), I(0)), <<Ret(I(1))>>)),
+                                                    Ex(Bin("*", V(7), Call(V(6), <<Bin("-", V(7), I(1))>>)))>>))>>
+                        \o f[4] \o <<Print(Call(V(6), <<I(2)>>))>>)>>
+             \o f[5] \o <<Ex(I(0))>>)),
+      StartD(f[6] \o <<Print(Call(V(3), <<V(1)>>))>>)>>
+    [] i = 23 ->  \* blob literals: `self` is declared for the fields that are function literals, and only for them -
+                  \* data fields before / between / after the methods, a parenthesised method, a nested literal (its
+                  \* fields are no methods of the outer one), a literal built inside a method of another blob
+    <<BlobD("QA", <<FD("da", TInt), FD("ma", TFn(<<>>, TInt)), FD("sa", TInt), FD("mp", TFn(<<>>, TInt)), FD("db", TInt),
+                    FD("nb", TName("QB")), FD("dd", TInt)>>),
+      BlobD("QB", <<FD("sb", TInt), FD("mb", TFn(<<>>, TInt)), FD("dc", TInt)>>),
+      BlobD("QC", <<FD("sc", TInt), FD("mk", TFn(<<>>, TName("QD")))>>),
+      BlobD("QD", <<FD("sd", TInt), FD("md", TFn(<<>>, TInt)), FD("de", TInt)>>),
+      StartD(f[1]
+        \o <<DefC(1, TNone, BlobS("QA", 41,
+                 <<FI("da", Bin("+", I(1), f[21])),
+                   FI("ma", Fn(<<>>, TInt, f[2] \o <<DefM(2, TInt, Fld(SelfB(41), "sa")), Asg("=", Fld(SelfB(41), "sa"), I(4))>>
+                                               \o f[7] \o <<Ret(V(2))>>)),
+                   FI("sa", Bin("+", I(2), f[22])),
+                   FI("mp", Paren(Fn(<<>>, TInt, f[3] \o <<Ret(Fld(SelfB(41), "sa"))>>))),
+                   FI("db", Bin("+", I(3), f[23])),
+                   FI("nb", BlobS("QB", 42, <<FI("sb", Bin("+", I(5), f[24])),
+                                              FI("mb", Fn(<<>>, TInt, f[4] \o <<Ret(Fld(SelfB(42), "sb"))>>)),
+                                              FI("dc", Bin("+", I(6), f[25]))>>)),
+                   FI("dd", Bin("+", I(7), f[26]))>>)),
+              DefC(3, TNone, BlobS("QC", 43,
+                 <<FI("sc", I(42)),
+                   FI("mk", Fn(<<>>, TName("QD"),
+                               f[5] \o <<DefM(4, TInt, Fld(SelfB(43), "sc")),
+                                         Ret(BlobS("QD", 44,
+                                               <<FI("sd", Bin("+", Fld(SelfB(43), "sc"), f[27])),
+                                                 FI("md", Fn(<<>>, TInt, <<Ret(Bin("+", Fld(SelfB(44), "sd"), f[28]))>>)),
+                                                 FI("de", Bin("+", V(4), f[29]))>>))>>))>>))>>
+        \o f[6] \o <<Print(Bin("+", Call(Fld(V(1), "ma"), <<>>), Fld(V(1), "sa"))),
+                      Print(Call(Fld(Call(Fld(V(3), "mk"), <<>>), "md"), <<>>))>>)>>
+
 \* every skeleton declares the blob P the "blob-field" form needs
 Skel(i, f) == <<BlobP>> \o SkelTops(i, f)
 
@@ -562,21 +703,29 @@ MaxShadowOf(k) == MaxShadow(k.evs, k.G, k.nb)
 \* pair merged, every binder under every role name
 \* (sylt's grammar wants a case binding to start with a lower-case letter: a type's name is not offered to one)
 Namings(k, pool, ms) ==
-    [1..k.nb -> 1..pool] \cup {AllDistinct(k.nb), ms} \cup PairMerges(k.nb)
+    (IF PoolSkel(k.i) THEN [1..k.nb -> 1..pool] ELSE {}) \cup {AllDistinct(k.nb), ms} \cup PairMerges(k.nb)
     \cup {nm \in SpecialNamings(k.nb) : ~(nm[SpecialAt(nm)] = 0 - TypeId("E") /\ k.sc.bk[SpecialAt(nm)] = "casebind")}
 LegalNamings(k, pool, ms) == {nm \in Namings(k, pool, ms) : Legal(k.evs, k.G, nm)}
 NamingDescr(k, nm) ==
     IF IsSpecial(nm)
     THEN "special|" \o NameStr(nm[SpecialAt(nm)]) \o "|" \o OwnFrame(k.sc, SpecialAt(nm)) \o ":" \o k.sc.bk[SpecialAt(nm)]
+         \* (the binder is written as the base of a field access somewhere: `list.f` where `list` is a variable)
+         \o (IF \E j \in 1..Len(k.evs) : k.evs[j].k = "use" /\ k.evs[j].fk = "fldbase" /\ k.evs[j].b = SpecialAt(nm)
+             THEN "+fldbase" ELSE "")
     ELSE PairDescr(k.sc, MergedPair(nm)[1], MergedPair(nm)[2])
 
 \* the planted-use universe: (binder, slot, form).  A global is not planted inside its own initialiser unless it is a
 \* function (sylt calls that a dependency cycle: initialisation order, not scoping).
-Pairs(k) == {p \in (1..k.nb) \X k.slots :
+Pairs(k) == {p \in ((1..k.nb) \cup SelfBinders(k.i)) \X k.slots :
                /\ (IsStmtSlot(p[2]) \/ p[1] \in IntBinders(k.i))
                /\ p \notin NoPlant(k.i)
                /\ ~(k.sc.bk[p[1]] = "global" /\ k.sc.slots[p[2]].top = p[1])}
 PairInScope(k, b, s) == InScope(k.sc, k.G, b, s)
+\* where a jump can be written: `ret` in a void function, `ret 0` in an int function, break / continue in a loop body
+DeadDirectOk(k, s, form) ==
+    CASE form = "dead-ret" -> k.sc.slots[s].fnrt = "void"
+      [] form = "dead-retv" -> k.sc.slots[s].fnrt = "value"
+      [] form \in {"dead-break", "dead-continue"} -> k.sc.slots[s].inloop
 \* is the form well typed for this binder at this slot (only then an in-scope use must be ACCEPTED)
 Fits(k, b, s, form) ==
     CASE form \in {"arg", "expr"} -> TRUE
@@ -589,12 +738,26 @@ Fits(k, b, s, form) ==
       [] form = "asg-target" -> b \in MutIntBinders(k.i)
       [] form = "scrutinee" -> b \in EnumBinders(k.i)
       [] form \in {"index-base", "field-base"} -> FALSE
+      [] form \in DeadDirect -> DeadDirectOk(k, s, form)
+      [] form \in DeadForms \ DeadDirect -> FALSE          \* (the wrapped dead-code forms are planted out of scope only)
+\* the syntactic positions tried in the statement slots of a skeleton: everything for the round-1/2 skeletons, a
+\* selection for the later ones (`self` is written as `self.<field>`, an int)
+SkForms(i, b) ==
+    IF i <= 17 THEN StmtForms \cup DeadForms
+    ELSE IF i = 18 THEN {"arg", "callee", "operand", "asg-value", "ret-val"} \cup DeadDirect
+    ELSE IF i \in 19..22 THEN {"arg", "callee"}
+    ELSE IF IsSelfId(b) THEN {"arg", "cond", "asg-target", "asg-value", "ret-val", "list-elem", "dead-ret", "dead-retv"}
+    ELSE {"arg", "operand"}
 FormsAt(k, b, s) ==
     IF ~IsStmtSlot(s) THEN {"expr"}
-    ELSE IF PairInScope(k, b, s) THEN {fm \in StmtForms : Fits(k, b, s, fm)}
-    ELSE {fm \in StmtForms : /\ (fm \in {"ret-call", "ret-val"} => k.sc.slots[s].fnrt # "none")
-                              /\ (fm = "blob-field" => k.sc.slots[s].mod = 1)}
+    ELSE IF PairInScope(k, b, s) THEN {fm \in SkForms(k.i, b) : Fits(k, b, s, fm)}
+    ELSE {fm \in SkForms(k.i, b) : /\ (fm \in {"ret-call", "ret-val"} => k.sc.slots[s].fnrt # "none")
+                                    /\ (fm = "blob-field" => k.sc.slots[s].mod = 1)
+                                    /\ (fm \in DeadDirect => DeadDirectOk(k, s, fm))
+                                    /\ (fm \in DeadWrappedE => HasE(k.i))}
 Triples(k) == UNION {{<<p[1], p[2], fm>> : fm \in FormsAt(k, p[1], p[2])} : p \in Pairs(k)}
+TriplesOf(k, b) == UNION {{<<p[1], p[2], fm>> : fm \in FormsAt(k, p[1], p[2])} : p \in {q \in Pairs(k) : q[1] = b}}
+IsTriple(k, b, s, fm) == <<b, s>> \in Pairs(k) /\ fm \in FormsAt(k, b, s)
 PlantedTops(i, b, s, form) == Skel(i, PlantFill(s, b, form))
 \* what the machine says about the planted use under the all-distinct naming
 PlantedResult(k, b, s, form) ==
@@ -602,7 +765,10 @@ PlantedResult(k, b, s, form) ==
         pl == {j \in 1..Len(r) : r[j].p = 1}
     IN [n |-> Cardinality(pl), r |-> IF pl = {} THEN 0 - 1 ELSE r[CHOOSE j \in pl : TRUE].r]
 PosClasses == {"before-decl", "after-block", "after-if-branch", "after-elif-branch", "after-else-branch",
-               "after-case-arm", "after-case-else", "after-loop", "after-fn", "before-fn", "other-module"}
+               "after-case-arm", "after-case-else", "after-loop", "after-fn", "before-fn", "other-module",
+               "before-method", "after-method", "other-instance"}
+\* the kind of the block a slot stands in directly
+InnerFk(k, s) == LET pth == k.sc.slots[s].path IN IF Len(pth) = 0 THEN "module" ELSE k.sc.fkOf[pth[Len(pth)]]
 (* ---------------------------------------- big programs (SyltGen's universe) *)
 \* every binder except `start` is renamed: globals in top-level order, then locals in declaration order
 IsRenamableGlobal(b) == b # 0 /\ b # SStart
